@@ -363,7 +363,19 @@ theorem handleMergeConflict_total (cfg : Cfg) (m : M) (l : L) (w : wfState m.st 
     · rename_i mp hcp
       have hmp := hunkCombinedParents_known hcp w
       split
-      · exact OkWF.mk (by simpa [wfState] using hmp)
+      · have hp : ∃ m1, mcPendingHeader cfg m = .ok m1 := by
+          unfold mcPendingHeader
+          split
+          · rename_i dt hh line raw src hst
+            rw [hst] at w
+            have hc : hh.coords.isEmpty = false := by
+              simp only [wfState, Bool.and_eq_true, Bool.not_eq_true'] at w; exact w.2
+            obtain ⟨m', hm', _⟩ := emitHunkHeader_ok cfg m hh line raw src hc
+            exact ⟨m', hm'⟩
+          · exact ⟨_, rfl⟩
+        obtain ⟨m1, hm1⟩ := hp
+        rw [hm1]
+        exact OkWF.mk (by simpa [wfState] using hmp)
       · exact OkWF.mk w
     · split
       all_goals first
